@@ -42,6 +42,7 @@ struct Acc {
     positions: u64,
     batch_runs: u64,
     steps: u64,
+    probes: u64,
     samples: Option<Samples>,
     last_case: Option<serde_json::Value>,
 }
@@ -51,6 +52,7 @@ struct V<'a> {
     codec: Codec,
     ctx: Arc<FaultCtx>,
     depth: usize,
+    probe_all: bool,
     acc: Mutex<Acc>,
     cont_cfg: Cfg,
 }
@@ -102,11 +104,12 @@ impl V<'_> {
         }
     }
 
-    /// Runs one faulty history on fresh objects. Returns the system if nothing was found.
-    fn case(&self, steps: &[Step], fault_at: usize, probe: bool, local: &mut Acc) -> Option<System> {
-        crate::watch::set_ctx(case_json(self.codec, steps, fault_at, probe).to_string());
+    /// Runs one faulty history on fresh objects. Returns the system (stopped right after the
+    /// last step) if nothing was found.
+    fn case(&self, steps: &[Step], fault_at: usize, local: &mut Acc) -> Option<System> {
+        crate::watch::set_case(self.codec == Codec::Json, steps, fault_at);
         let kinds = lanes(self.codec);
-        let (mut sys, fail) = replay_with(&kinds, steps, fault_at, |s| {
+        let (sys, fail) = replay_with(&kinds, steps, fault_at, |s| {
             s.fault = Some(self.ctx.clone());
         });
         local.cases += 1;
@@ -115,12 +118,6 @@ impl V<'_> {
         if let Some((i, f)) = fail {
             self.report_case(steps, fault_at, i, &f, false);
             ok = false;
-        } else if probe {
-            let f = sys.probe();
-            if !f.is_empty() {
-                self.report_case(steps, fault_at, steps.len(), &f, true);
-                ok = false;
-            }
         }
         local.fstats.merge(&sys.fstats);
         if local.cases % 61 == 1 {
@@ -128,6 +125,14 @@ impl V<'_> {
                        "outcomes": sys.fstats.by_outcome, "clean": ok}));
         }
         ok.then_some(sys)
+    }
+
+    fn probe(&self, sys: &mut System, steps: &[Step], fault_at: usize, local: &mut Acc) {
+        local.probes += 1;
+        let f = sys.probe();
+        if !f.is_empty() {
+            self.report_case(steps, fault_at, steps.len(), &f, true);
+        }
     }
 }
 
@@ -141,7 +146,7 @@ impl Visitor for V<'_> {
         for f in &self.ctx.ev_mut {
             let mut steps = path.to_vec();
             steps.push(Step::BadEv(f.clone()));
-            self.case(&steps, at, false, &mut local);
+            self.case(&steps, at, &mut local);
         }
         // (B2) faulty answers to every outstanding request
         for k in 0..sys.out.len() {
@@ -153,33 +158,31 @@ impl Visitor for V<'_> {
             for f in faults {
                 let mut steps = path.to_vec();
                 steps.push(Step::BadResp(k, f));
-                let Some(mut after) = self.case(&steps, at, true, &mut local) else {
+                let Some(mut after) = self.case(&steps, at, &mut local) else {
                     continue;
                 };
-                // full continuations for one representative of every set of rejected inputs
-                // that left the same (outcome, view, registry, core gauges) behind
                 let rejected = after
                     .fstats
                     .by_outcome
                     .keys()
                     .any(|k| k.contains("err:DeserializeOutput"));
-                if rejected && at < self.depth {
-                    // probe() has moved `after` on; fingerprint from a fresh replay
-                    let (mut fresh, _) = replay_with(&lanes(self.codec), &steps, usize::MAX, |s| {
-                        s.fault = Some(self.ctx.clone());
-                    });
-                    let fp = fresh.fingerprint();
-                    let fph = mc_kit::fnv64(format!("{fp:?}").as_bytes());
-                    let _ = &mut after;
-                    if seen.insert((format!("{kind:?}"), fph)) {
-                        let mut st = explore::Stats::default();
-                        let plain = Plain {
-                            outer: self,
-                            fault_at: at,
-                        };
-                        explore::node(&self.cont_cfg, &plain, &mut steps, &mut st);
-                        local.continuation_nodes += st.nodes;
-                    }
+                // one representative of every set of rejected inputs that left the same
+                // (view, registry, core gauges) behind gets the probe and ALL continuations up
+                // to the depth bound; with `probe_all` every single input gets the probe
+                let fp = after.fingerprint();
+                let fph = mc_kit::fnv64(format!("{fp:?}").as_bytes());
+                let first = rejected && seen.insert((format!("{kind:?}"), fph));
+                if first || self.probe_all {
+                    self.probe(&mut after, &steps, at, &mut local);
+                }
+                if first && at < self.depth {
+                    let mut st = explore::Stats::default();
+                    let plain = Plain {
+                        outer: self,
+                        fault_at: at,
+                    };
+                    explore::node(&self.cont_cfg, &plain, &mut steps, &mut st);
+                    local.continuation_nodes += st.nodes;
                 }
             }
         }
@@ -189,7 +192,9 @@ impl Visitor for V<'_> {
             for f in [vec![], crate::sys::enc_resp(self.codec, &Resp::Unit), vec![0xff, 0x7b, 0x00]] {
                 let mut steps = path.to_vec();
                 steps.push(Step::BadNote(j, f));
-                self.case(&steps, at, true, &mut local);
+                if let Some(mut after) = self.case(&steps, at, &mut local) {
+                    self.probe(&mut after, &steps, at, &mut local);
+                }
             }
         }
         // (A) on complete histories: the whole undecodable-event family at every position, the
@@ -200,7 +205,16 @@ impl Visitor for V<'_> {
                 steps.push(Step::BadEvBatch);
                 steps.extend_from_slice(&path[i..]);
                 local.batch_runs += 1;
-                self.case(&steps, i, false, &mut local);
+                if self.case(&steps, i, &mut local).is_none() {
+                    // name the single input: shortest prefix + that one event
+                    for f in &self.ctx.ev_bad {
+                        let mut single = path[..i].to_vec();
+                        single.push(Step::BadEv(f.clone()));
+                        if self.case(&single, i, &mut local).is_none() {
+                            break;
+                        }
+                    }
+                }
             }
         }
         let mut acc = self.acc.lock().unwrap();
@@ -210,6 +224,7 @@ impl Visitor for V<'_> {
         acc.positions += local.positions;
         acc.batch_runs += local.batch_runs;
         acc.steps += local.steps;
+        acc.probes += local.probes;
         if let (Some(a), Some(c)) = (acc.samples.as_mut(), local.last_case.take()) {
             a.offer(|| c);
         }
@@ -243,6 +258,7 @@ pub fn run(tier: Tier, args: &[String]) -> i32 {
         .unwrap_or(tier.pick(4, 5))
         - 1;
     let limit = tier.pick(52.0, 800.0);
+    let probe_all = tier == Tier::Thorough || args.iter().any(|a| a == "--probe-all");
     let deadline_all = Deadline::new(limit);
     let mut per_codec = vec![];
     let mut total = FaultStats::default();
@@ -272,6 +288,7 @@ pub fn run(tier: Tier, args: &[String]) -> i32 {
             codec,
             ctx: ctx.clone(),
             depth,
+            probe_all,
             acc: Mutex::new(Acc {
                 samples: Some(Samples::new(14)),
                 ..Default::default()
@@ -302,6 +319,7 @@ pub fn run(tier: Tier, args: &[String]) -> i32 {
             "faulty_cases_on_fresh_objects": acc.cases,
             "faulty_inputs_offered": acc.fstats.inputs,
             "continuation_nodes_after_rejected_answers": acc.continuation_nodes,
+            "probes_run": acc.probes,
             "completed": complete,
             "outcomes": acc.fstats.by_outcome,
         }));
@@ -327,9 +345,10 @@ pub fn run(tier: Tier, args: &[String]) -> i32 {
         "history_depth_bound (D-1)": depth,
         "event_alphabet": crate::app::MENU_NAMES,
         "reduced_event_menu": false,
+        "probe_after_every_faulty_answer": probe_all,
         "bincode_fault_alphabet": BIN_ALPHABET,
         "json_fault_alphabet": JSON_ALPHABET,
-        "where_applied": "events: the whole family of all 10 menu events at EVERY position i of EVERY complete valid history of the depth bound (all shorter histories are prefixes), rest of the history continued on the same instance against the twin; well-formed event mutants: at every history-tree node; answers: for EVERY outstanding request of EVERY node the family of its valid answer, each on fresh objects, followed by the probe (answer everything still outstanding, one more event + answer) against the twin; plus all continuations up to the depth bound for one representative per (request, fingerprint) of the rejected answers; three inputs to each of the two latest notifications",
+        "where_applied": "events: the whole family of all 10 menu events at EVERY position i of EVERY complete valid history of the depth bound (all shorter histories are prefixes), rest of the history continued on the same instance against the twin; well-formed event mutants: at every history-tree node; answers: for EVERY outstanding request of EVERY node the family of its valid answer, each on fresh objects, outcome + views + registry occupancy checked against the twin right away; the probe (answer everything still outstanding, one more event + answer, every step against the twin) and ALL continuations up to the depth bound for one representative per (request, post-state fingerprint) of the rejected answers - in the thorough tier the probe follows EVERY faulty answer; three inputs to each of the two latest notifications",
         "oracle": "return or Err, never a panic (captured panic = finding keyed by cause); call < 10 s (watchdog thread); peak allocation during the call < 16 MiB; rejected event: view bytes, registry kinds and core gauges unchanged, rest of the history equals the twin's; rejected answer: twin drops exactly that request if one-shot, does nothing if stream/notification, then views equal, registry one-shot entries == outstanding one-shots, probe equals the twin's; well-formed mutants: twin is given the decoded value (timer ids translated), outcomes/effects/views equal",
         "states": states,
         "transitions": transitions,
